@@ -586,8 +586,9 @@ func genHist(prop, out, tier string, rng *rand.Rand, oracle string) {
 	}
 	if prop == "C02" {
 		genUrls(sink, tier, rng) // URL forms against the model of the four unanchored patterns
+		addFsPathCases(sink)     // the file store's (bucket, name) -> files mapping against GCS/FsPaths.v
 	}
-	sink.Close(fmt.Sprintf("(C15 additionally: every interleaving of a compose with its destination among its sources, and of a copy, with a second writer of the object; C10 additionally: every interleaving of a metadata patch with a second patch, a content write, a delete or a copy onto the same object at the yield point between precondition check and store mutation, both stores, compared step by step with the interleaving model; C02/C11 additionally: uploads, compose and copy without an object name, a resumable session with a wrong declared MD5 finished several times; C02 additionally: decoded request paths - every URL form x bucket x name from pools with traps, plus random fragment concatenations - parsed by the real ParseGcsUrl and compared with the Coq model of the four unanchored patterns; and the round trip of the public form for every (bucket, name) pair) random histories (focus %s) of about %d requests over 2 buckets x %d names x %d payloads, all upload protocols with random chunkings, re-sent ranges, status queries, gzip bodies, wrong/invalid MD5, the three download URL forms, patches incl. read-only fields, listings, compose, copy, deletes, conditions; each program runs on the memory and the file store (names representable as files) and, one in three, on the memory store with trap names; distinct = distinct canonical (program, observation) text; non-trivial = at least one successful content write and one non-empty successful download", prop, length, len(namesRepresentable), len(payloads)), false)
+	sink.Close(fmt.Sprintf("(C15 additionally: every interleaving of a compose with its destination among its sources, and of a copy, with a second writer of the object; C10 additionally: every interleaving of a metadata patch with a second patch, a content write, a delete or a copy onto the same object at the yield point between precondition check and store mutation, both stores, compared step by step with the interleaving model; C02/C11 additionally: uploads, compose and copy without an object name, a resumable session with a wrong declared MD5 finished several times; C02 additionally: decoded request paths - every URL form x bucket x name from pools with traps, plus random fragment concatenations - parsed by the real ParseGcsUrl and compared with the Coq model of the four unanchored patterns; and the round trip of the public form for every (bucket, name) pair; and the files the file store's Add creates in an empty store (listed through the OS, store root nested so that escapes are seen) for every name over {a . /} up to length 5, a pool of traps with and without the sidecar extension, and degenerate bucket names, against GCS/FsPaths.v) random histories (focus %s) of about %d requests over 2 buckets x %d names x %d payloads, all upload protocols with random chunkings, re-sent ranges, status queries, gzip bodies, wrong/invalid MD5, the three download URL forms, patches incl. read-only fields, listings, compose, copy, deletes, conditions; each program runs on the memory and the file store (names representable as files) and, one in three, on the memory store with trap names; distinct = distinct canonical (program, observation) text; non-trivial = at least one successful content write and one non-empty successful download", prop, length, len(namesRepresentable), len(payloads)), false)
 }
 
 // siblingPrograms: an object whose name differs from a written name only by an ending that file-handling
